@@ -486,7 +486,7 @@ func relayForms(u *runner.U, datagramMode bool) {
 	}
 	rec(nil)
 	for _, seq := range seqs {
-		var viol string
+		var viol, echoViol string
 		nameEcho := false
 		name := fmt.Sprintf("relay-forms datagram-mode=%v forms=%v", datagramMode, seq)
 		inSched(func(n *simnet.Net, s *vsched.Sched) {
@@ -568,11 +568,17 @@ func relayForms(u *runner.U, datagramMode bool) {
 				}
 				ipHdr := header(map[bool]int{true: 1, false: 4}[e.ip.To4() != nil], e.ip, "", e.port)
 				if !bytes.HasPrefix(reply, ipHdr) {
-					viol = fmt.Sprintf("datagram #%d: the reply's header % x does not carry the replying host's address %v:%d (the request named it as %q)", i, head(reply, 24), e.ip, e.port, f.name)
+					msg := fmt.Sprintf("datagram #%d: the reply's header % x does not carry the replying host's address %v:%d (the request named it as %q)", i, head(reply, 24), e.ip, e.port, f.name)
 					if f.atyp == 3 && bytes.HasPrefix(reply, h) {
-						nameEcho = true // the header of the request (a domain name) copied into the reply: a pattern of its own
+						// the header of the request (a domain name) copied into the reply: a pattern of its
+						// own (known finding); the rest of the sequence is judged all the same
+						if !nameEcho {
+							nameEcho, echoViol = true, msg
+						}
+					} else {
+						viol = msg
+						return
 					}
-					return
 				}
 				wantBody := append([]byte{'r', 'e', byte('0' + f.dst)}, payload...)
 				if len(reply) < len(wantBody) || !bytes.Equal(reply[len(reply)-len(wantBody):], wantBody) {
@@ -585,15 +591,12 @@ func relayForms(u *runner.U, datagramMode bool) {
 		})
 		u.Eval(1)
 		u.Distinct(name)
+		if echoViol != "" {
+			u.Violation("C18/relay-reply-header-echoes-name", echoViol, name, name)
+		}
 		if viol != "" {
-			sig := "C18/relay-addressing"
-			if nameEcho {
-				sig = "C18/relay-reply-header-echoes-name"
-			}
-			u.Violation(sig, viol, name, name)
-			if !nameEcho {
-				return
-			}
+			u.Violation("C18/relay-addressing", viol, name, name)
+			return
 		}
 	}
 }
